@@ -131,7 +131,10 @@ class Interp:
         self.cur_cycle = 0
         self.val = []
         for n in elab.nets:
-            self.val.append(n.init if n.init is not None else "U" * n.width)
+            if n.ty[0] == "array":      # memory: tuple of words, index = address
+                self.val.append(n.init if n.init is not None else tuple("U" * type_width(n.ty[2]) for _ in range(n.ty[1])))
+            else:
+                self.val.append(n.init if n.init is not None else "U" * n.width)
         self.last = list(self.val)
         self.events = set()
         self.varval = {}
@@ -206,6 +209,20 @@ class Interp:
                     raise LiftError(f"{p.label}: '<=' to a non-signal {s[1]}")
                 v = self.coerce(self.ev(s[2], p, o.ty), o.ty, s[1])
                 self.pending[base_net(o).id] = v
+            elif k == "sassign_idx":
+                # element of an array signal: only that element's driver gets a new transaction
+                o = p.scope.lookup(s[1])
+                if not isinstance(o, (Net, AliasNet)) or o.ty[0] != "array":
+                    raise LiftError(f"{p.label}: indexed assignment to a non-array {s[1]}")
+                i = self.ev(s[2], p, None)
+                if i[0] != "int":
+                    raise LiftError(f"{p.label}: array index is not an integer")
+                nid = base_net(o).id
+                cur = list(self.pending.get(nid, self.val[nid]))
+                if not (0 <= i[1] < len(cur)):
+                    raise VhdlRuntimeError(f"index {i[1]} out of range {len(cur) - 1} downto 0 in an assignment to {s[1]}")
+                cur[i[1]] = self.coerce(self.ev(s[3], p, o.ty[2]), o.ty[2], s[1] + "(..)")
+                self.pending[nid] = tuple(cur)
             elif k == "vassign":
                 o = p.scope.lookup(s[1])
                 if not isinstance(o, Var):
@@ -354,6 +371,24 @@ class Interp:
             if not (0 <= lo and hi < w):
                 raise VhdlRuntimeError(f"slice {hi} downto {lo} out of range {w - 1} downto 0")
             return (a[0], a[1][w - 1 - hi: w - lo])
+        if k == "qual":
+            # a qualified expression states the type of its operand; it converts nothing
+            a = self.ev(e[2], p, (e[1], 0, 0))
+            if a[0] not in ("str", e[1]):
+                raise LiftError(f"qualified expression {e[1]}'(..) applied to {a[0]}")
+            return (e[1], a[1])
+        if k == "dynindex":
+            b = strip_paren(e[1])
+            o = p.scope.lookup(b[1]) if b[0] == "name" else None
+            if not isinstance(o, (Net, AliasNet)) or o.ty[0] != "array":
+                raise Unsupported("index with a non-literal expression into something that is not an array signal")
+            i = self.ev(e[2], p, None)
+            if i[0] != "int":
+                raise LiftError("array index is not an integer")
+            words = self.val[base_net(o).id]
+            if not (0 <= i[1] < len(words)):
+                raise VhdlRuntimeError(f"index {i[1]} out of range {len(words) - 1} downto 0 reading {b[1]}")
+            return (o.ty[2][0], words[i[1]])
         if k == "agg":
             ch, v = e[1][0]
             x = self.ev(v, p, ("sl",))
